@@ -1,6 +1,8 @@
 import Martian.Lemmas.Proxy
 import Martian.Lemmas.ProxyTrace
 import Martian.Lemmas.ProxyState
+import Martian.Model.ProxyWire
+import Martian.Lemmas.HttpSpec
 /-!
 C02 — "a modifier error never aborts the exchange - it is surfaced as a Warning header on the
 message and processing continues": for **every error value**. `ErrVal` lists the kinds of values a
@@ -109,6 +111,24 @@ theorem modifier_errors_only_add_warnings (sd : Bool) (base : Nat) (s : St) (i :
     | again s' => simp only [stripWarn_append, h1, ih]
     | close => rw [List.append_assoc, stripWarn_append, h1, stripWarn_tail, List.append_assoc]
     | hijack => rw [List.append_assoc, stripWarn_append, h1, stripWarn_tail, List.append_assoc]
+
+/-! ### The Warning itself: `proxyutil.Warning` on any header -/
+
+open Martian.Go Martian.Go.Header Martian.Proxy.Wire in
+/-- **Every modifier error becomes a Warning header, whatever the message looks like**: for every
+header - any Date (valid, invalid, empty, absent, repeated), Warnings of others already present,
+anything else - `proxyutil.Warning` adds exactly one value to `Warning`, after the existing ones. -/
+theorem warning_is_added_whatever_the_headers (value : Bytes → Bytes → Bytes) (h : Go.Header) (msg now : Bytes) :
+    ∃ v, values (puWarning value h msg now) kWarning = values h kWarning ++ [v] := by
+  refine ⟨value msg (if get h kDate == [] then now else get h kDate), ?_⟩
+  simp only [puWarning, values, add, Martian.HttpSpec.index_assign, if_true]
+
+open Martian.Go Martian.Go.Header Martian.Proxy.Wire in
+/-- … and it touches no other header. -/
+theorem warning_leaves_other_headers_alone (value : Bytes → Bytes → Bytes) (h : Go.Header) (msg now k : Bytes)
+    (hk : canonKey k ≠ canonKey kWarning) :
+    values (puWarning value h msg now) k = values h k := by
+  simp only [puWarning, values, add, Martian.HttpSpec.index_assign, hk, if_false]
 
 /-! Non-vacuity (tests): the quantification over values includes closeable ones, and the script
 below has an `io.EOF` from the request modifier followed by a served request. -/
